@@ -10,7 +10,7 @@ root occurs.  No Mathlib beyond ordered fields.
 -/
 import Mathlib.Algebra.Order.Field.Basic
 
-namespace GT.Draw
+namespace GT.DrawPath
 
 variable {K : Type*} [Field K] [LinearOrder K]
 
@@ -83,4 +83,4 @@ def edgePiece (thr : K) (radius : Option K) (arc : List (K × K) × List Code)
 def preprocess (dimension : Nat) : Except String Unit :=
   if dimension ≠ 2 then throw "GeometryError" else pure ()
 
-end GT.Draw
+end GT.DrawPath
